@@ -7,7 +7,7 @@
 From Coq Require Import ZArith List Bool Lia.
 From PCB Require Import lib.Result lib.PyInt model.StrSpace model.UserFn
      proofs.StrSpace_base proofs.StrSpace_gc proofs.StrSpace_inv proofs.StrSpace_ops
-     proofs.UserFn_proofs proofs.UserFn_stmt proofs.UserFn_values.
+     proofs.UserFn_proofs proofs.UserFn_stmt proofs.UserFn_values proofs.UserFn_inplace.
 Import ListNotations.
 Open Scope Z_scope.
 
@@ -102,10 +102,14 @@ Print Assumptions C10_reset_preserves.
    Full statement: *)
 Definition C10_inv_preserved_statement : Prop :=
   forall c fuel d s st, SInv c st -> SInv c (fst (exec c fuel d s st)).
-(* proved for LET (all expression forms), SWAP, ERASE, DIM, CLEAR [,n], DEF FN; MID$= and LSET/RSET are covered by
-   the correspondence tests and the oracle only (see design_notes/C10.md) *)
-Theorem C10_inv_preserved_partial : forall c fuel d s st, simple s -> SInv c st -> SInv c (fst (exec c fuel d s st)).
-Proof. exact exec_simple_inv. Qed.
+(* proved for LET (all expression forms), SWAP, LSET, RSET, ERASE, DIM, CLEAR [,n], DEF FN, DEFtype; MID$= and
+   console INPUT are covered by the correspondence tests and the oracle only (see design_notes/C10.md) *)
+Definition covered (s : stmt) : Prop := simple s \/ exists l e rj, s = SLset l e rj.
+
+Theorem C10_inv_preserved_partial : forall c fuel d s st, covered s -> SInv c st -> SInv c (fst (exec c fuel d s st)).
+Proof.
+  intros c fuel d s st [Hs|(l & e & rj & ->)] HI; [apply exec_simple_inv; assumption|apply exec_lset_inv; assumption].
+Qed.
 Print Assumptions C10_inv_preserved_partial.
 
 Fixpoint run_hist (c : cfg) (fuel : nat) (steps : list (bool * stmt)) (st : state) : state :=
@@ -115,10 +119,10 @@ Fixpoint run_hist (c : cfg) (fuel : nat) (steps : list (bool * stmt)) (st : stat
   end.
 
 Theorem C10_history_partial : forall c fuel steps st,
-  Forall (fun ds => simple (snd ds)) steps -> SInv c st -> SInv c (run_hist c fuel steps st).
+  Forall (fun ds => covered (snd ds)) steps -> SInv c st -> SInv c (run_hist c fuel steps st).
 Proof.
   intros c fuel steps. induction steps as [|[d s] r IH]; intros st Hs HI; [exact HI|].
-  inversion Hs; subst. simpl. apply IH; [assumption|]. apply exec_simple_inv; assumption.
+  inversion Hs; subst. simpl. apply IH; [assumption|]. apply C10_inv_preserved_partial; assumption.
 Qed.
 Print Assumptions C10_history_partial.
 
@@ -149,7 +153,8 @@ Proof.
     - intros n d els H; discriminate.
     - reflexivity.
     - intros fr o [].
-    - intros o []. }
+    - intros o [].
+    - simpl. lia. }
   split; [split; [exact G|unfold idle; simpl; auto]|].
   destruct (collect_good _ _ G) as (st' & H & _). eauto.
 Qed.
